@@ -262,9 +262,10 @@ def source_arm(ctx, reason):
         ctx.log('translator unusable for the model arm: %s' % e)
         return False
     rng = ctx.rng
-    for t in range(ctx.scale(12, 60)):
-        case = pc.gen_panel_case(rng, models=('KPanel',), max_mn=3)
+    for t in range(ctx.scale(24, 80)):
+        case = pc.gen_panel_case(rng, models=('KPanel',), max_mn=3, y12=(t % 2 == 1))
         case['alphadeg'] = 0.
+        case['m'], case['n'] = rng.choice([2, 3]), rng.choice([2, 3])         # at least two terms each way: index-order slips need i != k
         N = dict(Nxx=rng.uniform(-5, 5), Nyy=rng.uniform(-5, 5), Nxy=rng.uniform(-5, 5))
         c2 = dict(case, lean_model='CPanel', model=pc.MODEL_OF['CPanel'], alphadeg=None)
         pk, pcyl = pc.make_panel(case), pc.make_panel(c2)
